@@ -2,8 +2,9 @@ CONSTANTS
   DEV_QuoteFlagsBeforeEmit = FALSE
   DEV_GluedAfterAccepted = FALSE
   DEV_RestrictedNeedsValidBody = FALSE
+  DEV_DelCredEmptyListIsNil = FALSE
   MaxCount = 2
 SPECIFICATION Spec
-INVARIANTS StoredTagsNormalised MaskedNsOnlyOwn ActiveOnlyForNonRoot StoreGetsTheDocumentedQuery
+INVARIANTS CacheEqualsStored ReaddRefused StoredTagsNormalised MaskedNsOnlyOwn ActiveOnlyForNonRoot StoreGetsTheDocumentedQuery
 PROPERTIES ImmutableNsUntouchable RejectedChangesNothing
 CHECK_DEADLOCK FALSE
